@@ -70,7 +70,7 @@ Definition oracle (prop comp : N) (c : sx) (impl : list ev) : bool :=
     | 4 | 11 => c04_oracle (spec_of comp) c impl
     | 5 => c05_oracle (spec_of comp) c impl
     | 12 => c04_oracle (spec_of comp) c impl && c01_table_oracle comp c impl
-    | 13 => c04_oracle (spec_of comp) c impl && c01_table_oracle comp c impl && c02_table_oracle comp c impl
+    | 13 => c04_oracle (spec_of comp) c impl && c01_table_oracle comp c impl && sdt_oracle c impl
     | _ => true
     end
   else
